@@ -285,7 +285,7 @@ type wk struct {
 
 var weights = []wk{{"C", 30}, {"T", 14}, {"Ac", 14}, {"Ap", 8}, {"N", 10}, {"M", 3}, {"D", 3}, {"R", 3}, {"F", 3},
 	{"X", 2}, {"O", 1}, {"B", 6}, {"K", 2}, {"P", 5},
-	{"LC", 7}, {"LS", 2}, {"Ln", 4}, {"LA", 2}, {"LL", 1}, {"LR", 2}, {"LX", 1}, {"G", 3}, {"U", 1}}
+	{"LC", 7}, {"LS", 2}, {"Ln", 4}, {"LA", 2}, {"LL", 1}, {"LR", 2}, {"LX", 1}, {"G", 3}, {"U", 1}, {"Y", 3}}
 
 // scenario scripts: event orders that walk the coordinator through a whole migration / balance /
 // decommission; every step still comes from the PRNG and may be interleaved with random events
@@ -481,6 +481,15 @@ func (g *gen) next1(in *inst, kind string) event {
 		return event{"X", []string{fmt.Sprint(1 + r.Pick(2))}}
 	case "O":
 		return event{"O", []string{fmt.Sprint(r.Pick(2))}}
+	case "Y":
+		// register health: mostly back to healthy
+		m := 0
+		if in.reg.mode == 0 {
+			m = 1 + r.Pick(2)
+		} else if r.Chance(0.2) {
+			m = 1 + r.Pick(2)
+		}
+		return event{"Y", []string{fmt.Sprint(m)}}
 	case "G":
 		return event{"G", []string{fmt.Sprint([]int{0, 1, 2, 3, 4, 5, 6}[r.Pick(7)])}}
 	case "U":
